@@ -271,7 +271,7 @@ func bedDrive(args []string) error {
 			nrec = 0
 		}
 		for i := 0; i < nrec; i++ {
-			if sid%9 == 2 && i == 1 { // a comment line can be long, too
+			if sid%9 == 2 && sid < 180 && i == 1 { // a comment line can be long, too (long lines only among the first 180 sessions: traces must fit in TLC's memory)
 				file = append(file, ("#" + strings.Repeat("c", []int{4999, 4095, 65535, 69999}[(sid/9)%4]) + "\n")...)
 			}
 			if i > 0 && r.Intn(8) == 0 {
@@ -290,7 +290,7 @@ func bedDrive(args []string) error {
 					b.Name = pr[(i/2)%2]
 				}
 			}
-			if sid%9 == 6 && i == nrec/2 && n >= 4 { // a line of exactly a power of two bytes (one less under CRLF)
+			if sid%9 == 6 && sid < 180 && i == nrec/2 && n >= 4 { // a line of exactly a power of two bytes (one less under CRLF)
 				sizes := []int{4096, 65536, 131072}
 				if thorough() {
 					sizes = []int{4096, 8192, 32768, 65536, 131072, 262144}
@@ -306,7 +306,7 @@ func bedDrive(args []string) error {
 					b.Name = strings.Repeat("n", pad)
 				}
 			}
-			if sid%9 == 2 && i == nrec/2 { // a line longer than bufio's buffer / than 64 KiB
+			if sid%9 == 2 && sid < 180 && i == nrec/2 { // a line longer than bufio's buffer / than 64 KiB
 				if n >= 4 {
 					b.Name = strings.Repeat("n\"a%me", []int{700, 6000, 12000}[(sid/9)%3])
 				} else {
